@@ -69,6 +69,10 @@ func (t *ClientTransport) Handshake() (hr *parser.HandshakeResponse, err error) 
 	if err != nil {
 		return
 	}
+	// The server enforces its own `MaxBufferSize` on what it sends (announced as `maxPayload`).
+	// Without this, the default limit of the websocket library (32 KiB) would apply to incoming
+	// messages, and any larger message within `maxPayload` would close the connection.
+	t.conn.SetReadLimit(-1)
 
 	// If sid is set this means that we have already connected and
 	// we're using this transport for upgrade purposes.
